@@ -115,6 +115,8 @@ func main() {
 		modeStress(*seed, *n, *threads, *sharedLatest)
 	case "sharedlo":
 		modeSharedLO(*seed, *n, *threads)
+	case "batch":
+		modeBatch(*seed, *n, *threads)
 	case "replay":
 		switch *variant {
 		case "":
